@@ -419,6 +419,61 @@ Definition read_pkt_header (sig : bytes) : result (N * bytes) :=
         end
   end.
 
+(* packet.go Read (repair 700bb73): a packet that is not handed out as a stream is consumed to its
+   end after it has been parsed; that fails (unexpected EOF) when the input ends before the length
+   the header announces.  [pkt_complete sig]: all announced octets are there. *)
+Definition fits (n : N) (l : bytes) : bool := n <=? lenN l.
+
+Fixpoint partial_complete (fuel : nat) (chunk : N) (r : bytes) : bool :=
+  if lenN r <=? chunk then false      (* the next length octet is missing *)
+  else
+    match fuel, skipn (N.to_nat chunk) r with
+    | S f, c :: r' =>
+        if c <? 192 then fits c r'
+        else if c <? 224 then
+          match r' with
+          | d :: r'' => fits ((c - 192) * 256 + d + 192) r''
+          | [] => false
+          end
+        else if c <? 255 then partial_complete f (2 ^ (c mod 32)) r'
+        else
+          match r' with
+          | b1 :: b2 :: b3 :: b4 :: r'' => fits (be_to_N [b1; b2; b3; b4]) r''
+          | _ => false
+          end
+    | _, _ => false
+    end.
+
+Definition pkt_complete (sig : bytes) : bool :=
+  match sig with
+  | [] => false
+  | b0 :: r =>
+      if b0 <? 128 then false
+      else if (b0 / 64) mod 2 =? 0 then
+        let lt := b0 mod 4 in
+        if lt =? 3 then true
+        else match need (N.to_nat (2 ^ lt)) r with
+             | Ok (lb, r') => fits (be_to_N lb) r'
+             | _ => false
+             end
+      else
+        match r with
+        | [] => false
+        | c :: r' =>
+            if c <? 192 then fits c r'
+            else if c <? 224 then
+              match r' with
+              | d :: r'' => fits ((c - 192) * 256 + d + 192) r''
+              | [] => false
+              end
+            else if c <? 255 then partial_complete (length r') (2 ^ (c mod 32)) r'
+            else match need 4 r' with
+                 | Ok (lb, r'') => fits (be_to_N lb) r''
+                 | _ => false
+                 end
+        end
+  end.
+
 (* packet types that packet.Read hands to a parser other than the signature parsers (packet.go:347-400) *)
 Definition other_packet_tag (t : N) : bool :=
   existsb (N.eqb t) [1; 3; 4; 5; 6; 7; 8; 9; 11; 13; 14; 17; 18].
@@ -430,7 +485,9 @@ Definition packet_read (other : bytes -> result unit) (sig : bytes) : result pkt
   if tag =? 2 then
     match content with
     | [] => Err "EOF"                       (* peekVersion *)
-    | v :: _ => if v <? 4 then parse_sig3 content else parse_sig4 (length content) false content
+    | v :: _ =>
+        let* p := (if v <? 4 then parse_sig3 content else parse_sig4 (length content) false content) in
+        if pkt_complete sig then Ok p else Err "unexpected EOF"
     end
   else if other_packet_tag tag then let* _ := other sig in Ok POther
   else Err "unknown packet type".
